@@ -1,4 +1,5 @@
 import PedVerif.Gen.Mixins
+import PedVerif.Gen.MixinsShape
 /-!
 Model of `pedantic/mixins/generic_mixin.py` (`GenericMixin._get_types`, `get_generic_base`, `type_var`, `type_vars`)
 and of `pedantic/mixins/with_decorated_methods.py` (`create_decorator`, `WithDecoratedMethods.get_decorated_functions`).
@@ -63,7 +64,9 @@ inductive MemberDef where
   | func (kind : FKind) (apps : List App)          -- `def` / `async def`, decorators listed innermost first
   | other (oid : Nat) (attrs : List (Key × Val))   -- getattr yields some other object (class attribute, property value)
   | raising (exc : String)                         -- a property whose getter raises
-  | typeVarProp                                    -- the library property `type_var`
+  | typeVarProp                                    -- the library property `type_var` (its value: the enum class)
+  | typeVarsProp                                   -- the library property `type_vars` (its value: a dict — not hashable)
+  | classNameProp                                  -- the library property `class_name` (its value: a str)
 deriving DecidableEq, Repr
 
 structure Cls where
@@ -264,6 +267,38 @@ def getTypes (t : Table) (d c : Nat) (orig : Option (List TArg)) : Res (List (TA
 def runQueries (t : Table) (d : Nat) (qs : List (Nat × Option (List TArg))) : List (Res (List (TArg × TArg))) :=
   qs.map fun q => getTypes t d q.1 q.2
 
+/-! ### what a query can leave behind for the next one
+
+`runQueries` answers every query from the declarations alone.  That is the code only as long as the code keeps nothing between two
+queries.  The generated facts list every place where it could: statements of generic_mixin.py that write into an object (`gmStores`:
+`type(self)._memo = …` — found through the MRO by the instances of every SUB class —, `self._memo = …`, `memo[key] = …` on a container
+that outlives the call), the builtins / dunders that write without a store statement (`gmStateCalls`), parameter defaults created once
+(`gmMutableDefaults`), names assigned at class / module level, `global` / `nonlocal`, decorators on the helpers other than `property`.
+A world records what the library has written so far; in a world in which something was written the model makes **no** prediction
+(`none`): what such a memo does to later answers is not modelled, it is ruled out (`Props/C20.lean`: `queries_leave_nothing_behind`). -/
+
+/-- everything in the library source through which `_get_types` / `get_generic_base` / `type_var` / `type_vars` could keep something
+    between two queries -/
+def leftBehind : List String :=
+  PedVerif.Gen.MixinsShape.gmStores ++ PedVerif.Gen.MixinsShape.gmStateCalls ++ PedVerif.Gen.MixinsShape.gmMutableDefaults ++
+  PedVerif.Gen.MixinsShape.gmClassState ++ PedVerif.Gen.MixinsShape.gmModuleState ++
+  PedVerif.Gen.MixinsShape.gmAttributeStores ++
+  (if PedVerif.Gen.MixinsShape.scopeEscapes = 0 then [] else ["global / nonlocal"]) ++
+  ((getTypesDecorators ++ getGenericBaseDecorators ++ typeVarDecorators ++ typeVarsDecorators).filter (· != "property"))
+
+/-- what the library has written so far: (class of the instance whose query wrote it, the writing place) -/
+abbrev Written := List (Nat × String)
+
+/-- one query in a world -/
+def queryW (t : Table) (d : Nat) (w : Written) (q : Nat × Option (List TArg)) :
+    Option (Res (List (TArg × TArg))) × Written :=
+  (if w.isEmpty then some (getTypes t d q.1 q.2) else none, w ++ leftBehind.map fun s => (q.1, s))
+
+/-- a history of queries, the world threaded through -/
+def runQueriesW (t : Table) (d : Nat) : Written → List (Nat × Option (List TArg)) → List (Option (Res (List (TArg × TArg))))
+  | _, [] => []
+  | w, q :: qs => (queryW t d w q).1 :: runQueriesW t d (queryW t d w q).2 qs
+
 /-- the property `type_var` -/
 def typeVar (r : Res (List (TArg × TArg))) : Res TArg :=
   match r with
@@ -317,8 +352,18 @@ abbrev Confs := List App
 /-- `decorator(value)`: one more configured decorator -/
 def configure (confs : Confs) (a : App) : Confs := confs ++ [a]
 
+/-- a configured decorator is a closure over ITS OWN argument — read from the source: `value` is the parameter of the function that
+    `create_decorator` returns (`valueIsParameterOf`), `fun` — defined inside it — uses that name and nothing rebinds it
+    (`closureRebinds`), and with_decorated_methods.py has no statement that writes into an object (`wdmStores`: a slot like
+    `decorator.value = value` / `fun.value = value` would be shared by all configured decorators of one factory — the last call wins),
+    no `global` / `nonlocal`.  Where that does not hold the model makes no prediction about stored decorators. -/
+def closuresKeepTheirArgument : Bool :=
+  valueIsParameterOfReturnedDecorator && closureRebinds.isEmpty &&
+  PedVerif.Gen.MixinsShape.wdmStores.isEmpty && PedVerif.Gen.MixinsShape.wdmAttributeStores.isEmpty &&
+  PedVerif.Gen.MixinsShape.scopeEscapes == 0
+
 /-- the k-th configured decorator, whenever it is applied -/
-def configured (confs : Confs) (k : Nat) : Option App := confs[k]?
+def configured (confs : Confs) (k : Nat) : Option App := if closuresKeepTheirArgument then confs[k]? else none
 
 def applyApps (apps : List App) : FState := apps.foldl applyOne ⟨0, [], []⟩
 
@@ -331,42 +376,89 @@ inductive Attr where
   | clsBound (c : Nat) (n : Name) (gen : Nat)   -- classmethod: bound to the class
   | obj (oid : Nat)
   | typeArg (x : TArg)                          -- the value of `type_var`
+  | typeVars                                    -- the value of `type_vars`: a dict
+  | className                                   -- the value of `class_name`: a str
+  | instFn (fid : Nat) (gen : Nat)              -- a function stored in the instance `__dict__` (`self.cb = f`): not bound to anything
+  | nameStr (n : Name)                          -- the attribute's name (a str), should the code use it as the key
 deriving DecidableEq, Repr
+
+/-- can the object be a dictionary key?  (`decorated_functions[t][attribute] = …` raises TypeError for a dict) -/
+def Attr.hashable : Attr → Bool
+  | .typeVars => false
+  | _ => true
 
 inductive Got where
   | value (a : Attr) (dict : List (Key × Val))
   | raises (exc : String)
 deriving DecidableEq, Repr
 
+/-- what objects carry BY THEMSELVES, next to what `create_decorator` sets — restricted by the harness to the attribute names that
+    matter, the values of the enum's members (`hasattr(attribute, decorator_type)` asks for nothing else); read off the interpreter's
+    objects by the harness like the MRO -/
+structure Intr where
+  cls : List (Key × Val) := []       -- the enum class itself: its member names, and (StrEnum) everything `str` defines: `upper`, …
+  str : List (Key × Val) := []       -- a `str` (the value of `class_name`): `upper`, `join`, …
+  dict : List (Key × Val) := []      -- a `dict` (the value of `type_vars`): `get`, `keys`, …
+  fn : List (Key × Val) := []        -- every function / bound method, beside its `__dict__`: `__doc__`, `__name__`, …
+deriving DecidableEq, Repr
+
 structure EnumDesc where
   members : List Key                 -- values of the members, in definition order
-  clsAttrs : List (Key × Val)        -- attributes of the enum class itself (its member names)
+  intr : Intr := {}                  -- what the objects the scan meets carry under these names by themselves
 deriving Repr
 
-def getattrMember (c : Nat) (n : Name) (tvar : TArg) (tvAttrs : List (Key × Val)) : MemberDef → Got
+def getattrMember (c : Nat) (n : Name) (tvar : TArg) (ia : Intr) : MemberDef → Got
   | .func k apps =>
     let s := applyApps apps
     .value (match k with
       | .inst => .bound c n s.gen
       | .static => .plainFn c n s.gen
-      | .cls => .clsBound c n s.gen) s.dict
+      | .cls => .clsBound c n s.gen) (s.dict ++ ia.fn)       -- `__dict__` first (what setattr wrote wins), then the type's own
   | .other oid attrs => .value (.obj oid) attrs
   | .raising e => .raises e
-  | .typeVarProp => .value (.typeArg tvar) tvAttrs
+  | .typeVarProp => .value (.typeArg tvar) ia.cls
+  | .typeVarsProp => .value .typeVars ia.dict
+  | .classNameProp => .value .className ia.str
+
+/-- an entry of the instance `__dict__` (`self.cb = f` in `__init__`) -/
+inductive InstVal where
+  | fn (fid : Nat) (apps : List App)               -- a function defined outside the classes, decorated, stored on the instance
+  | obj (oid : Nat) (attrs : List (Key × Val))     -- any other object
+deriving DecidableEq, Repr
+
+abbrev InstNs := List (Name × InstVal)
+
+def getattrInst (ia : Intr) : InstVal → Got
+  | .fn fid apps => let s := applyApps apps; .value (.instFn fid s.gen) (s.dict ++ ia.fn)
+  | .obj oid attrs => .value (.obj oid) attrs
 
 def dedup : List Name → List Name
   | [] => []
   | x :: r => x :: (dedup r).filter (fun y => y ≠ x)
 
-/-- `dir(self)` (order irrelevant; instances have no attributes of their own besides dunders) -/
-def dirNames (t : Table) (mro : List Nat) : List Name := dedup (mro.flatMap fun c => (nsOf t c).map (·.1))
+/-- `dir(self)` (order irrelevant): the instance `__dict__` and the namespaces along the MRO -/
+def dirNames (t : Table) (mro : List Nat) (inst : InstNs) : List Name :=
+  dedup (inst.map (·.1) ++ mro.flatMap fun c => (nsOf t c).map (·.1))
 
 /-- the class along the MRO whose namespace answers `getattr(self, n)` -/
 def resolve (t : Table) (mro : List Nat) (n : Name) : Option (Nat × MemberDef) :=
   mro.findSome? fun c => ((nsOf t c).find? (fun p => p.1 = n)).map fun p => (c, p.2)
 
-def view (t : Table) (mro : List Nat) (tvar : TArg) (tvAttrs : List (Key × Val)) : List (Name × Got) :=
-  (dirNames t mro).filterMap fun n => (resolve t mro n).map fun cm => (n, getattrMember cm.1 n tvar tvAttrs cm.2)
+/-- a data descriptor on the class (a property) is asked before the instance `__dict__` -/
+def MemberDef.isDataDescr : MemberDef → Bool
+  | .raising _ | .typeVarProp | .typeVarsProp | .classNameProp => true
+  | _ => false
+
+/-- `getattr(self, n)`: data descriptors of the classes, then the instance `__dict__`, then the other class attributes -/
+def getattrSelf (t : Table) (mro : List Nat) (tvar : TArg) (ia : Intr) (inst : InstNs) (n : Name) : Option Got :=
+  match resolve t mro n, inst.find? (fun p => p.1 = n) with
+  | some cm, some p => some (if cm.2.isDataDescr then getattrMember cm.1 n tvar ia cm.2 else getattrInst ia p.2)
+  | some cm, none => some (getattrMember cm.1 n tvar ia cm.2)
+  | none, some p => some (getattrInst ia p.2)
+  | none, none => none
+
+def view (t : Table) (mro : List Nat) (tvar : TArg) (ia : Intr) (inst : InstNs) : List (Name × Got) :=
+  (dirNames t mro inst).filterMap fun n => (getattrSelf t mro tvar ia inst n).map fun g => (n, g)
 
 /-- `attribute_name.startswith('__')` -/
 def skipName (n : Name) : Bool := decide (skipPrefixUnderscores ≤ n.unders)
@@ -395,19 +487,25 @@ def scanView (members : List Key) : List (Name × Got) → Dict → Res Dict
     match g with
     | .raises e => .raised .member e
     | .value a dict =>
-      match scanMembers a dict members acc with
+      -- `decorated_functions[decorator_type][attribute] = …` with an attribute that cannot be a key (a dict): TypeError at the first
+      -- member the attribute answers to
+      if !scanValueIsGetattrOfAttribute then .raised .member "<value expression outside the model>" else
+      let key := if scanKeyIsAttribute then a else .nameStr n
+      if !key.hashable && members.any (fun k => (dictGet k dict).isSome) then .raised .member "TypeError" else
+      match scanMembers key dict members acc with
       | none => .raised .keyError "KeyError"
       | some acc' => scanView members rest acc'
 
 def initDict (members : List Key) : Dict := if initAllMembers then members.map (·, []) else []
 
-def getDecorated (t : Table) (d c : Nat) (orig : Option (List TArg)) (enumOf : TArg → Option EnumDesc) : Res Dict :=
+def getDecorated (t : Table) (d c : Nat) (orig : Option (List TArg)) (enumOf : TArg → Option EnumDesc) (inst : InstNs) :
+    Res Dict :=
   match typeVar (getTypes t d c orig) with
   | .raised s e => .raised s e
   | .ok x =>
     match enumOf x with
     | none => .raised .notIterable "TypeError"
-    | some en => scanView en.members (view t (lin t d c) x en.clsAttrs) (initDict en.members)
+    | some en => scanView en.members (view t (lin t d c) x en.intr inst) (initDict en.members)
 
 /-! ## The library classes -/
 
@@ -415,7 +513,11 @@ def libMember (m : Nat × String × LibKind) : Name × MemberDef :=
   (⟨m.1, m.2.1⟩,
    match m.2.2 with
    | .method => .func .inst []
-   | .property => if m.1 = 0 ∧ m.2.1 = "type_var" then .typeVarProp else .other 0 [])
+   | .property =>
+     if m.1 = 0 ∧ m.2.1 = "type_var" then .typeVarProp
+     else if m.1 = 0 ∧ m.2.1 = "type_vars" then .typeVarsProp
+     else if m.1 = 0 ∧ m.2.1 = "class_name" then .classNameProp
+     else .other 0 [])
 
 def libBase (s : String) : BaseRef :=
   if s = "GenericMixin" then .plain 1 else if s = "ABC" then .plain 2 else .generic [0]
